@@ -258,6 +258,8 @@ theorem freshen_persists (cfg : Cfg) (reqH : Header) (key : Str) (stored : Entry
     (f : Freshness) (ccReq : Directives) (mv : Bool) (start t1 : Int) (r : Resp) (b : Bool) (tr : List Step) (res : Result)
     (h304 : r.status = 304) (hval : clientPreconditionForwarded reqH stored.resp.header = false) (hid : stored.id ≠ [])
     (hns : ccReq.noStore = false) (hns' : (parseCC r.header).noStore = false)
+    (hvary : joinWith [',', ' '] (Header.values (updateStoredHeaders (Header.del stored.resp.header sAge) r.header) sVary) =
+             joinWith [',', ' '] (Header.values stored.resp.header sVary))
     (h : Run (handleValidation cfg sGET reqH key stored refs ri f ccReq mv start (.resp r t1 b) (fun r => .ret r)) tr res) :
     ∃ ok, tr = [Step.setEntry stored.id
         { stored with requestedAt := start, receivedAt := t1,
@@ -268,7 +270,7 @@ theorem freshen_persists (cfg : Cfg) (reqH : Header) (key : Str) (stored : Entry
   have hne : stored.id.isEmpty = false := by cases hs : stored.id with
     | nil => exact absurd hs hid
     | cons c cs => rfl
-  simp only [hne, hns, hns', Bool.or_self, Bool.false_eq_true, ↓reduceIte] at h
+  simp only [hne, hns, hns', Bool.or_self, Bool.false_eq_true, ↓reduceIte, hvary, ne_eq, not_true_eq_false] at h
   cases h with
   | setEntry ok h1 => cases h1; exact ⟨ok, rfl, rfl⟩
 
@@ -330,8 +332,11 @@ theorem handleValidation_k (cfg : Cfg) (method : Str) (reqH : Header) (key : Str
   · split at h
     · split at h
       · exact ⟨[], tr, _, rfl, rfl, rfl, h⟩
-      · cases h with
-        | setEntry ok h1 => exact ⟨[_], _, _, rfl, rfl, rfl, h1⟩
+      · split at h
+        · obtain ⟨t1, t2, ht, hc, hs, hk⟩ := storeResponse_run _ _ _ _ _ _ _ _ _ _ _ _ h
+          exact ⟨t1, t2, _, ht, hc, hs, hk⟩
+        · cases h with
+          | setEntry ok h1 => exact ⟨[_], _, _, rfl, rfl, rfl, h1⟩
     · split at h
       · exact ⟨[], tr, _, rfl, rfl, rfl, h⟩
       · split at h
